@@ -166,6 +166,10 @@ def run(tier):
     ev.set("block_processor_replays", total)
     ev.set("tool_runs", runs)
     ev.set("files_read_back", files_checked)
+    ev.set("real_results_that_differ_from_the_model_but_satisfy_the_properties(spec drift, no alarm)", len(bpbind.DRIFT))
+    if bpbind.DRIFT:
+        print("SPEC-DRIFT (no alarm): %d real block processor results satisfy the properties but differ from BlockProc's prediction, e.g. %s"
+              % (len(bpbind.DRIFT), json.dumps(bpbind.DRIFT[0])[:300]))
     ev.set("traces_validated_against_impl", total + runs)
     ev.assumptions += ["xxh32 replaced by its low k bits at link time (build variant hash<k>) forces collisions",
                        "compression is deterministic and injective (equal stored bytes <=> equal data)"]
